@@ -21,8 +21,13 @@ import (
 
 // Trigger is the semantic stop point of the canceller.
 type Trigger struct {
-	Kind string // "released", "consumed", "handler_enter", "handler_exit"
-	N    int    // packet index / transaction index (within the attempt)
+	// "released", "consumed", "handler_enter", "handler_exit", and for the
+	// connection setup: "start" (before Stream does anything), "dialed" (the
+	// transport connection exists, the driver has not looked at it yet),
+	// "stalled" (the master reached the handshake stall of its plan and the
+	// client waits for it)
+	Kind string
+	N    int // packet index / transaction index (within the attempt)
 }
 
 // Attempt is one Stream call of a scenario.
@@ -38,17 +43,17 @@ type Attempt struct {
 
 // Scenario is one closed system explored by E1.
 type Scenario struct {
-	Name          string
-	Hist          string
-	StartFile     string
-	StartPos      uint64
-	ServerID      uint32
-	Attempts      []Attempt
-	Pacing        string // "first" | "lock"
-	MapperFailAt  int
+	Name             string
+	Hist             string
+	StartFile        string
+	StartPos         uint64
+	ServerID         uint32
+	Attempts         []Attempt
+	Pacing           string // "first" | "lock"
+	MapperFailAt     int
 	MapperMismatchAt int
-	ShortReads    bool
-	DelayBound    bool // every deviation from the default schedule costs (delay bounding)
+	ShortReads       bool
+	DelayBound       bool // every deviation from the default schedule costs (delay bounding)
 }
 
 // Delivery is one handler call.
@@ -76,6 +81,7 @@ type AttemptRec struct {
 	Returned     bool
 	CancelIssued bool // the canceller fired (before Stream returned, by construction)
 	Conn         int  // connection index (-1 none)
+	Dialed       bool // the dial function returned a connection
 	HandlerErr   bool // a handler call returned an error
 	MapperErr    bool
 	ConsumedEOF  bool
@@ -83,26 +89,27 @@ type AttemptRec struct {
 
 // Record is everything the oracles look at.
 type Record struct {
-	Sc         *Scenario
-	Deliveries []*Delivery
-	Attempts   []*AttemptRec
-	Master     *simmaster.Master
-	Conns      []*vmem.Conn // client ends
-	Mapper     *hx.Mapper
-	Sched      *vrt.Sched
-	AliasWithin    string // values of one delivered transaction share memory (found by the scribbling handler)
-	HandlerOverlap bool
+	Sc                 *Scenario
+	Deliveries         []*Delivery
+	Attempts           []*AttemptRec
+	Master             *simmaster.Master
+	Conns              []*vmem.Conn // client ends
+	Mapper             *hx.Mapper
+	Sched              *vrt.Sched
+	AliasWithin        string // values of one delivered transaction share memory (found by the scribbling handler)
+	HandlerOverlap     bool
 	HandlerAfterReturn bool
-	Final      []hx.TxSnap // deliveries re-read after everything ended
+	Final              []hx.TxSnap // deliveries re-read after everything ended
 }
 
 type env struct {
-	rec    *Record
-	sc     *Scenario
-	master *simmaster.Master
-	att    int
+	rec        *Record
+	sc         *Scenario
+	master     *simmaster.Master
+	att        int
 	bytesAfter map[int][]int64 // conn -> cumulative s2c bytes after each released packet
-	srv    map[int]*vmem.Conn
+	srv        map[int]*vmem.Conn
+	relObj     *vrt.Obj
 }
 
 var (
@@ -114,6 +121,10 @@ var (
 func dial(ctx context.Context, addr string) (net.Conn, error) {
 	e := cur
 	at := e.sc.Attempts[e.att]
+	if err := ctx.Err(); err != nil {
+		// as net.Dialer.DialContext: a context that is already done fails the dial
+		return nil, &net.OpError{Op: "dial", Net: "vmem", Err: errors.New("operation was canceled")}
+	}
 	if at.DialRefuse {
 		return nil, &net.OpError{Op: "dial", Net: "vmem", Err: errors.New("connection refused")}
 	}
@@ -125,6 +136,13 @@ func dial(ctx context.Context, addr string) (net.Conn, error) {
 	e.srv[idx] = sv
 	e.rec.Attempts[e.att].Conn = idx
 	vrt.GoNamed(fmt.Sprintf("M%d", idx), false, func() { e.master.Serve(idx, sv) })
+	// the dial has returned, the driver has not started to use the connection:
+	// a stop point of its own (a cancellation can land exactly here)
+	e.rec.Attempts[e.att].Dialed = true
+	if e.relObj != nil {
+		vrt.Touch("dialed", nil, []*vrt.Obj{e.relObj})
+	}
+	vrt.Yield("dial-return", func() bool { return true })
 	return cl, nil
 }
 
@@ -180,6 +198,8 @@ func body(sc *Scenario, rec *Record) {
 	rec.Master = e.master
 	cur = e
 	relObj := vrt.NewObj("released")
+	e.relObj = relObj
+	e.master.OnStall = func(conn int) { vrt.Touch("stalled", nil, []*vrt.Obj{relObj}) }
 	e.master.AfterPacket = func(conn, i int) {
 		e.bytesAfter[conn] = append(e.bytesAfter[conn], e.srv[conn].BytesWritten())
 		vrt.Touch("released", nil, []*vrt.Obj{relObj})
@@ -271,6 +291,12 @@ func body(sc *Scenario, rec *Record) {
 					return false
 				}
 				switch tr.Kind {
+				case "start":
+					return true
+				case "dialed":
+					return ar.Dialed
+				case "stalled":
+					return ar.Conn >= 0 && e.master.Logs[ar.Conn].Stalled && rec.Conns[len(rec.Conns)-1].Pending() == 0
 				case "released":
 					return ar.Conn >= 0 && e.master.Logs[ar.Conn].Released > tr.N
 				case "consumed":
@@ -300,6 +326,10 @@ func body(sc *Scenario, rec *Record) {
 				ar.CancelIssued = true
 				cancel()
 			})
+		}
+		if at.Cancel != nil && at.Cancel.Kind == "start" {
+			// a stop point before Stream does anything
+			vrt.Yield("stream-call", func() bool { return true })
 		}
 		inStream = true
 		serr := st.Stream(ctx, handler)
